@@ -60,6 +60,25 @@ CHECKS["C13"] = dict(
     design_ref="DESIGN.md section 4 (C13)",
 )
 
+CHECKS["C17"] = dict(
+    category="proof",
+    text="The materialising handler returns value, dense Jacobian, per-dimension diagonal blocks and the sum over dimensions exactly; the forward- and reverse-mode Hutchinson handlers return the exact value and an estimate whose exact expectation over all sign probes (computed symbolically: v^2=1, E[v]=0) equals those blocks, in the documented layout, with the key advanced to split(key)[0] and probes drawn from split(key)[1]; for an uninterpreted map with uninterpreted Jacobian, every evaluation point.",
+    note="(n_in,n_out,d) and num_probes enumerated; jax.linearize/vjp/jacfwd are traced by real JAX; rademacher is a kernel axiom (v^2=1, one symbol per key and entry); input validation (_verify_fun_and_x) is trace-time Python, covered under C20",
+    design_ref="DESIGN.md section 4 (C17)",
+)
+CHECKS["C18"] = dict(
+    category="proof",
+    text="dt0 equals scale|u0|/(|f0|+nugget) and dt0_adaptive equals the two-stage Hairer-Norsett-Wanner heuristic (norm convention of the cited reference implementation) and is strictly positive for every input, including zero values, zero derivatives and guard branches (z3 case analysis over the where-guards with guarded division axioms); uninterpreted vector field.",
+    note="known finding: dt0 returns 0 for u0 = 0 (listed in known_findings.txt); 'lets an adaptive solve start and finish' is reduced to dt0 > 0 (the C06 precondition) -- termination is not claimed; finiteness is trivial in real arithmetic given non-zero divisors",
+    design_ref="DESIGN.md section 4 (C18)",
+)
+CHECKS["C19"] = dict(
+    category="proof",
+    text="lstsq_constrained_gauss_newton: loop rule on the real body for all iteration counts -- every exit is justified by one of the three documented reasons, statistics are truthful, the displacement from the mean lies in range(L L^T J^T) of the last linearisation (singular L included); for affine constraints one iteration of the real body lands on the Gaussian conditional mean and a second does not move; taylor_point_maximum_a_posteriori starts at and weights by the given rv.",
+    note="(D,m) enumerated; lstsq_svd is a kernel axiom (normal equations + row space); feasibility needs a ghost inverse of the innovation covariance (full row rank); convergence within the budget for nonlinear constraints is not claimed; use inside DenseResidual.linearize / jetexpand_residual is by composition with C02/C11 contracts",
+    design_ref="DESIGN.md section 4 (C19)",
+)
+
 NOT_APPLICABLE = {
     "C01": "global accuracy / convergence order against the true ODE solution is not a postcondition of one call nor a data-structure invariant; no contract over the code implies it (DESIGN section 4, C01)",
 }
